@@ -860,6 +860,54 @@ func main() {
 				reset()
 			})
 		}
+		// far-away trailing data and white space: "exactly one well-formed JSON value" must hold however much white space
+		// separates the value from what follows (decoders read in blocks of 512 / 4096 bytes), limit disabled or raised
+		for _, ml := range []int{0, 20000} {
+			ml := ml
+			r.Phase(fmt.Sprintf("MaxInputLength=%d: a valid value, N white-space bytes (N around 0, 512, 1024, 4096, 8192), then nothing / a second value / garbage; rules 6, 2, 4", ml), "complete grid", func() {
+				var ns []int
+				for _, c := range []int{0, 512, 1024, 4096, 8192} {
+					for d := -26; d <= 3; d++ {
+						if c+d >= 0 {
+							ns = append(ns, c+d)
+						}
+					}
+				}
+				for _, rule := range []int{6, 2, 4} {
+					rule := rule
+					setup(arg{Rule: rule, Max: 16, MaxLen: &ml})
+					r.Parallel(int64(len(ns)), 1, func(w *mc.W, k int64) {
+						for _, ws := range []string{" ", "\n", "\t \r\n"} {
+							pad := strings.Repeat(ws, ns[k]/len(ws)+1)[:ns[k]]
+							for _, base := range []string{`10`, `"10 KiB"`, `{"value":1,"unit":"KiB"}`, `{"value":1,"unit":"KiB","x":[1,2,{"y":null}]}`} {
+								for _, tail := range []string{"", "x", "1", "{}", ",", "]", "}", `""`, "\x00", "null"} {
+									w.Point()
+									p.Do(w, arg{Doc: mc.Bin(base + pad + tail), Rule: rule, Max: 16, MaxLen: &ml})
+								}
+							}
+						}
+					})
+				}
+				reset()
+			})
+		}
+		// string escapes: JSON's own (\" \\ \/ \b \f \n \r \t \uXXXX) must be decoded, everything else (Go / C literal syntax) is not JSON
+		r.Phase("string form and string members written with every kind of escape: valid JSON escapes decode to the text grammar, Go-only escapes (\\x31, \\061, \\U00000031, \\a, \\v, single quotes, back quotes) are malformed", "complete for the listed documents", func() {
+			esc := []string{`"\u0031\u0030"`, `"1\u0020KiB"`, `"\u0031 \u004bi\u0042"`, `"1\/"`, `"1\tB"`, `"1\nKiB"`, `"\"1\""`, `"1 k\u0042"`, `"\ud83d\ude00"`, `"\u00a01\u00a0B"`,
+				`"\x31\x30"`, `"1\x20KiB"`, `"\061"`, `"\U00000031"`, `"\a1"`, `"1\v"`, `"\'1\'"`, `'10'`, "`10`", `"1\0"`, `"\u003"`, `"\uD83D"`, `"1\`, `"\u12G4"`, `"1\e"`, `"\x"`, `"\101"`}
+			r.Serial(func(w *mc.W) {
+				for _, rule := range []int{6, 2, 4, 14} {
+					setup(arg{Rule: rule, Max: 16})
+					for _, e := range esc {
+						for _, d := range []string{e, `{"value":1,"unit":` + e + `}`, `{"value":` + e + `,"unit":"B"}`, `{"value":1,"unit":"B","x":` + e + `}`, `{` + e + `:1,"value":1,"unit":"B"}`} {
+							w.Point()
+							p.Do(w, arg{Doc: mc.Bin(d), Rule: rule, Max: 16})
+						}
+					}
+				}
+			})
+			reset()
+		})
 		pcfg := mc.NewProbe(r, "configuration_change", nil, probeCfgChange)
 		r.Phase("serial: the same document parsed twice with the configuration changed in between (MaxObjectKeys, rule, MaxInputLength): the second call is judged under the second configuration", "complete for depth 2 over the listed documents and configurations", func() {
 			cd := []string{`{"value":1,"unit":"B"}`, `{"x":1,"value":1,"unit":"B"}`, `{"x":1,"y":2,"value":1,"unit":"KiB"}`, `12`, `"1KiB"`, `{"value":1}`, `{"value":1,"unit":"B","z":[1,2]}`}
